@@ -787,7 +787,8 @@ def expand_macro(text, src_text, name, record, where):
         pos = j
         cnt += 1
     if cnt == 0:
-        raise GenError("lost anchor (no invocation of %s!) in %s" % (name, where))
+        record.append("macro %s!: no invocation in this item (nothing to expand)" % name)
+        return text
     record.append("macro %s! expanded from its definition in the repository (x%d)" % (name, cnt))
     return out + text[pos:]
 
